@@ -99,6 +99,24 @@ def judge(case, part):
         partial = rowmodel.predict(decls, config["checks"], header, None, raw[: info["row"]])
         if (raised.get("close") is None) != (partial["close"] is None):
             part.fail(tag % "raise-mode-end-verdict-over-rows-seen", case, partial["close"], raised.get("close"))
+    # the same through the convenience entry point cutplace.rows(): the end-of-data verdict is delivered when the rows are exhausted
+    from mc.props import c06
+
+    for mode in ("yield", "continue"):
+        cid5 = readermachine.make_cid(config, decls)
+        source5, _ = readermachine.store(config, decls, table)
+        api_events, api_raised = c06.api_rows(cid5, source5, mode)
+        part.transitions += 1
+        part.validated += 1
+        if mode == "yield":
+            expected_kinds = ["row" if e[0] == "row" else "err" for e in prediction["events"]]
+        else:
+            expected_kinds = ["row" for e in prediction["events"] if e[0] == "row"]
+        if [e[0] for e in api_events] != expected_kinds:
+            part.fail(tag % ("cutplace.rows-%s-events" % mode), case, expected_kinds, api_events)
+        expected_end = prediction["close"]
+        if (api_raised is None) != (expected_end is None) or (api_raised is not None and api_raised.get("type") != "CheckError"):
+            part.fail(tag % ("cutplace.rows-%s-end-of-data-verdict" % mode), case, "CheckError" if expected_end else "no error", api_raised)
     # a reader constructed first, then another complete read of the same data on the same CID, then the first reader
     # is consumed: its verdicts must still be those of its own data set alone
     m = harness.modules()
